@@ -34,6 +34,7 @@ func init() {
 			{ID: "C05-R8", Title: "collected map keys are sorted at once", Floor: 1, Run: collectedMapKeysAreSorted},
 			{ID: "C05-R9", Title: "reflected map walks are order independent", Floor: 0, Run: reflectedMapWalksAreOrderIndependent},
 			{ID: "C05-R10", Title: "sort orders are total over floats", Floor: 1, Run: sortOrdersAreTotalOverFloats},
+			{ID: "C05-R11", Title: "shared state is enumerated (shared with C09-R18)", Floor: 1, Run: sharedStateIsEnumerated},
 		},
 	})
 }
